@@ -237,4 +237,108 @@ example : dirMean (Mat.of (fun _ _ => 7) : Mat ℝ 1 1) (Vec.of (fun _ => 1)) 0 
   rw [e]
   exact wrap_of_mem ⟨by linarith [Real.pi_lt_four], by linarith [Real.pi_gt_three]⟩
 
+/-! ## the half-turn guard of the arc clause is necessary; further invariances of the executed model -/
+
+/-- The guard `δ < π/2` ("clustered within less than a half turn") of `mean_in_arc` cannot be relaxed: for
+    **every** half-width `δ` with `π/2 ≤ δ < π` the two samples `π ± δ` with weights `1/2` lie within `δ` of the
+    centre `π`, the weights are positive, and the mean is `0` — at distance `π > δ` from the centre, outside the arc.
+    (At `δ = π/2` the resultant vanishes and `atan2 0 0 = 0`; beyond it the resultant is `-cos δ > 0`.) -/
+theorem mean_in_arc_half_turn_counterexample (δ : ℝ) (h1 : π / 2 ≤ δ) (h2 : δ < π) :
+    ∃ (a : Mat ℝ 1 2) (w : Vec ℝ 2) (m : ℝ), (∀ k, 0 < w k) ∧
+      (∀ k, ∃ n : ℤ, |a 0 k - m - n * (2 * π)| ≤ δ) ∧ dirMean a w 0 = 0 ∧
+      ¬ ∃ n : ℤ, |dirMean a w 0 - m - n * (2 * π)| ≤ δ := by
+  have hmean := half_turn_pair_mean δ h1 h2
+  refine ⟨Mat.of (fun _ k => if k = 0 then π + δ else π - δ), Vec.of (fun _ => 1 / 2), π,
+    fun k => by simp, fun k => ⟨0, ?_⟩, hmean, ?_⟩
+  · have hδ0 : 0 ≤ δ := by linarith [Real.pi_pos]
+    by_cases hk : k = 0
+    · simp only [Mat.of_apply, hk, if_true]
+      rw [abs_le]; constructor <;> push_cast <;> linarith
+    · simp only [Mat.of_apply, hk, if_false]
+      rw [abs_le]; constructor <;> push_cast <;> linarith
+  · rw [hmean]
+    rintro ⟨n, hn⟩
+    rw [abs_le] at hn
+    -- `-π - 2πn ∈ [-δ, δ]` with `δ < π` has no integer solution
+    have hpi := Real.pi_pos
+    rcases le_or_gt 0 n with h0 | h0
+    · have : (0 : ℝ) ≤ n := by exact_mod_cast h0
+      nlinarith [hn.1]
+    · have : (n : ℝ) ≤ -1 := by exact_mod_cast Int.le_sub_one_of_lt h0
+      nlinarith [hn.2]
+
+/-- non-vacuity of the counterexample family: `δ = 2` lies in `[π/2, π)` -/
+example : π / 2 ≤ (2 : ℝ) ∧ (2 : ℝ) < π := ⟨by linarith [Real.pi_lt_four], by linarith [Real.pi_gt_three]⟩
+
+/-- "… unaffected by 2π shifts of any sample", in the form the check exercises it: ONE sample `a i k₀` of one row is
+    replaced by `a i k₀ + 2π n`, every other entry of the matrix stays as it is; the mean of that row is the same real
+    number (not only congruent) — every shape, any weights, no condition on the resultant. -/
+theorem mean_shift_single_sample (a : Mat ℝ r c) (w : Vec ℝ c) (i : Fin r) (k₀ : Fin c) (n : ℤ) :
+    dirMean (Mat.of (fun i' k => if i' = i ∧ k = k₀ then a i' k + n * (2 * π) else a i' k)) w i = dirMean a w i := by
+  refine mean_shift_invariant a _ w i (fun k => ?_)
+  by_cases hk : k = k₀
+  · exact ⟨n, by simp [hk]⟩
+  · exact ⟨0, by simp [hk]⟩
+
+/-- the rows are independent: a shift in row `i` does not touch the mean of another row `i'` (each row of the result
+    reads its own row of the matrix only) -/
+theorem mean_row_independent (a a' : Mat ℝ r c) (w : Vec ℝ c) (i : Fin r) (h : ∀ k, a' i k = a i k) :
+    dirMean a' w i = dirMean a w i :=
+  mean_shift_invariant a a' w i (fun k => ⟨0, by simp [h k]⟩)
+
+/-- listing the (sample, weight) pairs in another order changes nothing (a blocked / chunked / reversed accumulation
+    must return the same mean) — multi-column shapes; for one column there is nothing to permute -/
+theorem mean_perm_invariant (a a' : Mat ℝ r c) (w w' : Vec ℝ c) (i : Fin r) (σ : Equiv.Perm (Fin c))
+    (ha : ∀ k, a' i k = a i (σ k)) (hw : ∀ k, w' k = w (σ k)) : dirMean a' w' i = dirMean a w i := by
+  by_cases h1 : c = 1
+  · subst h1
+    have hσ : σ 0 = 0 := Subsingleton.elim _ _
+    rw [dirMean_one, dirMean_one, ha 0, hσ]
+  · rw [dirMean_multi a' w' i h1, dirMean_multi a w i h1, resultant_perm a a' w w' i σ ha hw]
+
+/-- multiplying all weights by a positive factor changes nothing (the property fixes no normalisation of the weights) -/
+theorem mean_scale_invariant (a : Mat ℝ r c) (w : Vec ℝ c) (i : Fin r) (s : ℝ) (hs : 0 < s) :
+    dirMean a (Vec.of (fun k => s * w k)) i = dirMean a w i := by
+  by_cases h1 : c = 1
+  · subst h1; rw [dirMean_one, dirMean_one]
+  · rw [dirMean_multi _ _ i h1, dirMean_multi a w i h1, resultant_scale, Complex.arg_real_mul _ hs]
+
+/-- splitting the samples into two chunks: the resultant of `c₁ + c₂` samples is the sum of the resultants of the chunks
+    (what an accumulation over blocks of columns has to reproduce — C19-r4-1 dropped the last block) -/
+theorem mean_chunks {c₁ c₂ : Nat} (a : Mat ℝ r (c₁ + c₂)) (w : Vec ℝ (c₁ + c₂)) (i : Fin r) (h1 : c₁ + c₂ ≠ 1) :
+    dirMean a w i = Complex.arg
+      (resultant (Mat.of (fun i k => a i (Fin.castAdd c₂ k))) (Vec.of (fun k => w (Fin.castAdd c₂ k))) i +
+       resultant (Mat.of (fun i k => a i (Fin.natAdd c₁ k))) (Vec.of (fun k => w (Fin.natAdd c₁ k))) i) := by
+  rw [dirMean_multi a w i h1, resultant_append]
+
+/-! ## addition and subtraction undo each other on the circle -/
+
+/-- `directional_sub(directional_add(a, b), b)` is `a` wrapped — in particular `a` itself for `a` in `(-π, π]` -/
+theorem sub_add_cancel_wrap (a : Mat ℝ r c) (b : Vec ℝ r) (i : Fin r) (j : Fin c) :
+    dirSub (dirAdd a b) b i j = wrap (a i j) ∧ (a i j ∈ Set.Ioc (-π) π → dirSub (dirAdd a b) b i j = a i j) := by
+  have h : dirSub (dirAdd a b) b i j = wrap (a i j) := by
+    rw [sub_eq_wrap_sub]
+    obtain ⟨k, hk⟩ := add_congr_mod_two_pi a b i j
+    refine wrap_eq_of_congr ⟨k, ?_⟩
+    rw [hk]; ring
+  exact ⟨h, fun hm => by rw [h, wrap_of_mem hm]⟩
+
+/-- `directional_add(directional_sub(a, b), b)` is `a` wrapped -/
+theorem add_sub_cancel_wrap (a : Mat ℝ r c) (b : Vec ℝ r) (i : Fin r) (j : Fin c) :
+    dirAdd (dirSub a b) b i j = wrap (a i j) := by
+  show wrap (dirSub a b i j + b i) = wrap (a i j)
+  obtain ⟨k, hk⟩ := sub_congr_mod_two_pi a b i j
+  refine wrap_eq_of_congr ⟨k, ?_⟩
+  rw [hk]; ring
+
+/-- the mean commutes with `directional_add` used as the common rotation: rotating the samples with the code's own
+    `directional_add` and then averaging is the same as averaging and then adding with wrap -/
+theorem mean_add_rotates (a : Mat ℝ r c) (d : Vec ℝ r) (w : Vec ℝ c) (i : Fin r)
+    (hR : c ≠ 1 → resultant a w i ≠ 0) :
+    dirMean (dirAdd a d) w i = wrap (dirMean a w i + d i) := by
+  rw [← mean_rotates a d w i hR]
+  refine mean_shift_invariant _ _ w i (fun k => ?_)
+  obtain ⟨n, hn⟩ := add_congr_mod_two_pi a d i k
+  exact ⟨n, by simp only [Mat.of_apply]; rw [hn]⟩
+
 end BFL.Dir
